@@ -17,7 +17,14 @@ func init() {
 			"Not covered (data-dependent loops over runtime strings): the escaped-quote scan in re, the quote handling of the option splitter used by in/include, beyond which splitter/separator/trim they delegate to.",
 		Assume:  []string{"net.ParseIP, time.Parse, regexp, encoding/json.Valid, os.Stat are the independent recognisers the documentation refers to"},
 		Trusted: []string{"go/types", "go/ssa", "regexp/syntax", "specification formulas in rulespecs.go"},
-		Run:     func(c *Ctx) { runC05(c); runC05Sticky(c); runC05Unique(c); runToStrCases(c, "C05-TOSTRCASES"); runC05InList(c); base(c, "DECLARED", "STATE", "ALIAS", "LOOP", "TEXT") },
+		Run: func(c *Ctx) {
+			runC05(c)
+			runC05Sticky(c)
+			runC05Unique(c)
+			runToStrCases(c, "C05-TOSTRCASES")
+			runC05InList(c)
+			base(c, "DECLARED", "STATE", "ALIAS", "LOOP", "TEXT")
+		},
 	})
 }
 
